@@ -4,4 +4,5 @@ CONSTANT MaxNow = 3
 INVARIANT Equiv
 INVARIANT OnePassword
 INVARIANT NoncesUnique
+VIEW View
 CHECK_DEADLOCK FALSE
